@@ -552,7 +552,14 @@ delfunc(struct func *f)
 {
 	struct block *b;
 	struct inst **inst;
+	struct gotolabel *g;
+	size_t i;
 
+	for (i = 0; i < f->gotos.cap; ++i) {
+		g = f->gotos.vals[i];
+		if (f->gotos.keys[i].str && !g->defined)
+			error(&tok.loc, "label '%s' used but not defined", (const char *)f->gotos.keys[i].str);
+	}
 	while (b = f->start) {
 		f->start = b->next;
 		arrayforeach (&b->insts, inst)
@@ -646,6 +653,7 @@ funcgoto(struct func *f, char *name)
 	if (!g) {
 		g = xmalloc(sizeof(*g));
 		g->label = mkblock(name);
+		g->defined = false;
 		*entry = g;
 	}
 
